@@ -5,7 +5,8 @@
    instance the correspondence check evaluates: Pregel and DAG channels of Model/Graph.v). *)
 From Eino Require Import Base.Util Model.Graph Model.RunLoop Model.Interrupt Model.IntrObs
      Proofs.DagInv Proofs.InterruptChanDagSkip Proofs.RunLoopSusp Proofs.InterruptNested Proofs.InterruptNestedDag
-     Proofs.RunLoop Proofs.RunLoopRerun Proofs.Interrupt Proofs.InterruptRerun Proofs.InterruptWitness.
+     Proofs.RunLoop Proofs.RunLoopRerun Proofs.Interrupt Proofs.InterruptRerun Proofs.InterruptWitness
+     Proofs.RunLoopEagerSerial Proofs.InterruptEagerSerial.
 From Coq Require Import Permutation.
 Open Scope N_scope.
 
@@ -411,6 +412,96 @@ Example resume_equiv_nested_dag_hypotheses_hold :
      co_out co3 = ODone v /\ List.length (trE e) = 3%nat).
 Proof. exact (conj wd_batch (conj wd_reference wd_interrupted)). Qed.
 
+(* ---------------------------------------------------------------------------------------------
+   Eager mode (Workflow: taskManager.wait hands over ONE completed task while the others keep running; the
+   collection order is an input of the model), the SERIAL fragment (round 4). [serial fuel s env]: at this loop
+   state and at every later one of the run at most one task is pending and nothing is running — what a linear
+   workflow performs (also through nested graphs, rerun nodes, interrupt points). On such a run the eager loop IS
+   the batch loop, for every schedule; hence the schedule does not matter, the run driven through the store with
+   eager segments is the run driven with batch segments, and [resume_equiv] holds for it: same outcome, same
+   environment, identical execution log. The general eager case (several tasks in flight) is not proved: it needs
+   the confluence of the channel layer under reordering of single-task folds. *)
+Section GenericEager.
+  Context {V CS GS ENV SCP SINFO : Type}.
+  Variable zero : V.
+  Variable fold : CS -> list (N * V) -> res CS.
+  Variable getr : CS -> res (CS * list (N * V)).
+  Variable pre : N -> V -> GS -> V * GS.
+  Variable exec : N -> option SCP -> V -> ENV -> @texec V SCP SINFO * ENV.
+  Variable before after : list N.
+
+  Theorem eager_serial_is_batch : forall fuel (s : @lstate V CS GS SCP) sched env log,
+    serial zero fold getr pre exec before after fuel s env ->
+    eiterate zero fold getr pre exec before after false fuel (to_estate s) sched env log =
+    iterate zero fold getr pre exec before after fuel s env log.
+  Proof. exact (eager_serial_is_batch_l zero fold getr pre exec before after). Qed.
+
+  Theorem eager_serial_schedule_independent : forall fuel (s : @lstate V CS GS SCP) sched1 sched2 env log,
+    serial zero fold getr pre exec before after fuel s env ->
+    eiterate zero fold getr pre exec before after false fuel (to_estate s) sched1 env log =
+    eiterate zero fold getr pre exec before after false fuel (to_estate s) sched2 env log.
+  Proof. exact (eager_serial_schedule_independent_l zero fold getr pre exec before after). Qed.
+
+  (* [drive_serial]: every segment the driven run performs (from the caller's input, or from the checkpoint the
+     store holds) is serial; [freshE] / [resumedE]: the eager segments under the collection order [sched_of env] *)
+  Theorem eager_drive_serial_is_batch_drive : forall {B : Type} (ser : @checkpoint V CS GS SCP -> B) deser
+      fuelR cs0 gs0 x (sched_of : ENV -> list N) tick with_id n k mods store env,
+    drive_serial zero fold getr pre exec before after ser deser fuelR cs0 gs0 x tick with_id n k mods store env ->
+    drive ser deser (freshE zero fold getr pre exec before after fuelR cs0 gs0 x sched_of)
+          (resumedE zero fold getr pre exec before after fuelR sched_of) tick with_id n k mods store env =
+    drive ser deser (start zero fold getr pre exec before after fuelR cs0 gs0 x)
+          (resume zero fold getr pre exec before after fuelR) tick with_id n k mods store env.
+  Proof.
+    intros B ser deser fuelR cs0 gs0 x sched_of tick.
+    exact (eager_drive_serial_is_batch_drive_l zero fold getr pre exec before after ser deser fuelR cs0 gs0 x sched_of tick).
+  Qed.
+
+  Variable Inv : CS -> Prop.
+  Hypothesis H_fold_inv : forall cs l cs', Inv cs -> fold cs l = Ok cs' -> Inv cs'.
+  Hypothesis H_getr_inv : forall cs cs' r, Inv cs -> getr cs = Ok (cs', r) -> Inv cs'.
+  Hypothesis H_fold_nil : forall cs, Inv cs -> fold cs [] = Ok cs.
+  Hypothesis H_getr_idem : forall cs cs' r, Inv cs -> getr cs = Ok (cs', r) -> getr cs' = Ok (cs', []).
+
+  Theorem resume_equiv_eager_serial : forall {B : Type} (ser : @checkpoint V CS GS SCP -> B) deser,
+    (forall c, deser (ser c) = Some c) ->
+    forall (sched_of : ENV -> list N) fuelR cs0 gs0 x fuelU env oU logU envU n,
+      Inv cs0 ->
+      start zero fold getr pre exec [] [] fuelU cs0 gs0 x env = (oU, logU, envU) -> final oU ->
+      (fuelU <= fuelR)%nat -> (fuelU <= n)%nat ->
+      drive_serial zero fold getr pre exec before after ser deser fuelR cs0 gs0 x (fun _ e => e)
+                   true n 0 (fun _ g => g) None env ->
+      exists cos lastlog,
+        drive ser deser (freshE zero fold getr pre exec before after fuelR cs0 gs0 x sched_of)
+              (resumedE zero fold getr pre exec before after fuelR sched_of)
+              (fun _ e => e) true n 0 (fun _ g => g) None env =
+          (cos ++ [{| co_out := oU; co_log := lastlog; co_written := false |}], envU) /\
+        Forall interrupted_call cos /\
+        List.concat (map co_log cos) ++ lastlog = logU.
+  Proof.
+    intros B ser deser Hser.
+    exact (resume_equiv_eager_serial_l zero fold getr pre exec before after Inv H_fold_inv H_getr_inv H_fold_nil H_getr_idem
+             ser deser Hser).
+  Qed.
+End GenericEager.
+
+(* non-vacuity on the model: the linear Workflow START -> 2 -> 3 -> END (all-predecessor channels, eager loop),
+   interrupt-after 2 and interrupt-before 3: every segment of the driven run is serial; driven with eager segments
+   under a collection order naming the nodes backwards it is interrupted once and completes on the resume *)
+Example resume_equiv_eager_serial_hypotheses_hold : exists cs0,
+  init_chans value ws_gr = Ok cs0 /\
+  drive_serial VNil (ifold ws_gr) (igetr ws_gr) (pre_fn ws_cfg) ws_ex [3] [2] (fun c : cpt => c) (fun c => Some c)
+               6 cs0 (gs0 ws_cfg) ws_x (fun _ e => e) true 2 0 (fun _ s => s) None (env0 []).
+Proof. exact ws_serial. Qed.
+
+Example resume_equiv_eager_serial_interrupts_happen : exists cs0 co1 co2 e,
+  init_chans value ws_gr = Ok cs0 /\
+  drive (fun c : cpt => c) (fun c => Some c)
+        (freshE VNil (ifold ws_gr) (igetr ws_gr) (pre_fn ws_cfg) ws_ex [3] [2] 6 cs0 (gs0 ws_cfg) ws_x ws_sched)
+        (resumedE VNil (ifold ws_gr) (igetr ws_gr) (pre_fn ws_cfg) ws_ex [3] [2] 6 ws_sched)
+        (fun _ e => e) true 2 0 (fun _ s => s) None (env0 []) = ([co1; co2], e) /\
+  co_written co1 = true /\ (exists v, co_out co2 = ODone v) /\ List.length (co_log co1 ++ co_log co2) = 2%nat.
+Proof. exact ws_eager_run. Qed.
+
 Print Assumptions loop_split_resume.
 Print Assumptions loop_split_interrupt.
 Print Assumptions resume_equiv.
@@ -431,3 +522,9 @@ Print Assumptions resume_equiv_nested_modifier_hypotheses_hold.
 Print Assumptions resume_equiv_nested_dag_branch_hypotheses_hold.
 Print Assumptions dag_skip_propagation_order_independent.
 Print Assumptions dag_channel_layer.
+Print Assumptions eager_serial_is_batch.
+Print Assumptions eager_serial_schedule_independent.
+Print Assumptions eager_drive_serial_is_batch_drive.
+Print Assumptions resume_equiv_eager_serial.
+Print Assumptions resume_equiv_eager_serial_hypotheses_hold.
+Print Assumptions resume_equiv_eager_serial_interrupts_happen.
